@@ -176,6 +176,10 @@ func (c *checker) overlapCase(cfg compCfg, dyn bool, idx int, rng *rand.Rand) {
 		r.Inconclusive("overlap-flush-watchdog")
 		return
 	}
+	if timedOut(u.rec.snapshot()) {
+		r.Inconclusive("forwarder-client-timeout")
+		return
+	}
 	r.Eval(1)
 	as := fr.attempts()
 	maps, events := cap.snapshot()
